@@ -86,6 +86,7 @@ func runC07(p *core.Program, r *core.Report) {
 	c07Pools(p, r, reg)
 	c07Clear(p, r, reg)
 	c07Mask(p, r, reg)
+	c07IntParsers(p, r)
 	c07TextNum(p, r)
 }
 
@@ -530,6 +531,61 @@ func (c *maskCtx) helperBlock(list []ast.Stmt, last map[types.Object]string) map
 		}
 	}
 	return got
+}
+
+// c07IntParsers: the helpers that turn decimal text back into integers (stringutil.ParseInt32/64 and
+// siblings, used by the UDP readers for numbers carried as text) must parse with an integer parser of
+// at least the target width; a float parser loses precision above 2^53 and so changes ids.
+func c07IntParsers(p *core.Program, r *core.Report) {
+	pk := p.Pkg("util/stringutil")
+	if pk == nil {
+		r.Undec("C07.textnum", "util/stringutil", "-", "package not found")
+		return
+	}
+	for _, fi := range p.Funcs {
+		if fi.Pkg != pk || fi.Decl.Body == nil || !strings.HasPrefix(fi.Obj.Name(), "ParseInt") {
+			continue
+		}
+		info := fi.Pkg.TypesInfo
+		var probs []string
+		parsers := 0
+		ast.Inspect(fi.Decl.Body, func(n ast.Node) bool {
+			call, ok := n.(*ast.CallExpr)
+			if !ok {
+				return true
+			}
+			sel, ok := call.Fun.(*ast.SelectorExpr)
+			if !ok {
+				return true
+			}
+			fn, _ := info.Uses[sel.Sel].(*types.Func)
+			if fn == nil || fn.Pkg() == nil || fn.Pkg().Path() != "strconv" {
+				return true
+			}
+			switch fn.Name() {
+			case "ParseInt", "Atoi", "ParseUint":
+				parsers++
+				if fn.Name() == "ParseInt" && len(call.Args) == 3 {
+					if bits, ok := constIntOf(info, call.Args[2]); ok {
+						want := int64(64)
+						if strings.HasSuffix(fi.Obj.Name(), "32") {
+							want = 32
+						}
+						if bits != 0 && bits < want {
+							probs = append(probs, fmt.Sprintf("parses with bit size %d, narrower than the %d-bit result", bits, want))
+						}
+					}
+				}
+			case "ParseFloat":
+				probs = append(probs, "parses integer text with strconv.ParseFloat: values above 2^53 are rounded, so ids carried as text change")
+			}
+			return true
+		})
+		if parsers == 0 && len(probs) == 0 {
+			probs = append(probs, "no integer parser (strconv.ParseInt/Atoi) is used")
+		}
+		fileProbs(r, "C07.textnum", "util/stringutil."+fi.Obj.Name(), p.Pos(fi.Decl.Pos()), probs, "integer parser of sufficient width")
+	}
 }
 
 func c07Mask(p *core.Program, r *core.Report, reg *registryResult) {
